@@ -161,6 +161,33 @@ def run(ctx):
             mode = "orth" if side["mesh"]["user_options"].get("orthogonal", True) else "nonorth"
             ctx.violation("real grid | %s | %s" % (mode, classify(sig, (a.config["geom"],))), detail,
                           replay=dict(kind="real", config=a.config))
+        # shared y-edges: the file shows one value (getRZBoundary copies the upper neighbour's
+        # first row over the region's own last row); the two regions' OWN versions of the edge
+        # must coincide too, otherwise hy, distances and zShift of the lower region refer to
+        # points that are not the ones written
+        from ref import trace as _trace
+
+        regs_by_id = {r["myID"]: r for r in side["regions"]}
+        worst_edge = 0.0
+        mode = "orth" if side["mesh"]["user_options"].get("orthogonal", True) else "nonorth"
+        for r in side["regions"]:
+            up = r["connections"]["upper"]
+            if up is None or "own_last" not in r:
+                continue
+            U = regs_by_id[up]
+            for k in range(2 * r["nx"] + 1):
+                if _trace.pinned_points(r, k)[-1]:
+                    continue
+                first = _trace.contour_points(U, k)[0]
+                dd = float(np.hypot(*(r["own_last"][k] - first)))
+                if gu.in_domain(a, first[0], first[1]):
+                    worst_edge = max(worst_edge, dd)
+                    transitions += 1
+        ctx.setmax("worst_own_vs_neighbour_shared_y_edge_mismatch_m", worst_edge)
+        if worst_edge > 1e-6:
+            ctx.violation("real grid | %s | shared y-edge: a region's own end points differ from its upper neighbour's start points" % mode,
+                          dict(config=a.config["label"], worst_mismatch_m=worst_edge),
+                          replay=dict(kind="real", config=a.config))
         # stand-in run of the same sizes must write identical integers and index ranges
         o = side["eq"]["user_options"]
         so = {k: o[k] for k in o if k.startswith(("nx_", "ny_")) or k in ("y_boundary_guards", "start_at_upper_outer")}
